@@ -21,7 +21,16 @@ echo "== demo on changed tree"; PYTHONPATH=$wt/src /venv/bin/python $dir/demo.py
 sv=/var/tmp/seedverif-$prop
 mkdir -p $sv
 exec 9> $sv.lock; flock 9   # one seed run per property at a time
-flock /verif/lean/.lake.lock rsync -a --delete --exclude .git --exclude replays --exclude seeded /verif/ $sv/
+if [ "${SEED_FROM_HEAD:-0}" = 1 ]; then
+  # coordinator mode: test the committed state of /verif (builders may be mid-edit in the working tree)
+  exp=/var/tmp/seedexport-$prop; rm -rf $exp; mkdir -p $exp
+  git -C /verif archive HEAD | tar -x -C $exp
+  if [ ! -d $sv/lean/.lake ]; then mkdir -p $sv/lean; flock /verif/lean/.lake.lock cp -a /verif/lean/.lake $sv/lean/; fi
+  rsync -a --delete --exclude lean/.lake --exclude replays --exclude seeded $exp/ $sv/
+  rm -rf $exp
+else
+  flock /verif/lean/.lake.lock rsync -a --delete --exclude .git --exclude replays --exclude seeded /verif/ $sv/
+fi
 cd $sv
 echo "== ./check $prop (quick) on changed tree"; WZ_REPO=$wt ./check $prop --tier quick > $sv/last_check.log 2>&1
 rc=$?
